@@ -65,6 +65,7 @@ var c12Values = map[string][]string{
 	"bin":    {"aGVsbG8="},
 	"lr":     {"5"},
 	"pct":    {"0", "100"},
+	"iid":    {"/vfa:sys/vfa:name", "/vfa:if[vfa:name='e1']/vfa:mtu", "/vfa:sys/vfb:b-leaf"},
 	"ll-str": {"LL:a,b", "LL:b,a", "LL:x"}, "ll-u64": {"LL:18446744073709551615,1"}, "ll-i8": {"LL:-128,127"}, "ll-d2": {"LL:1.50,-0.25"},
 	"ll-en": {"LL:one,two"}, "ll-idref": {"LL:id-one,id-three"}, "ll-bool": {"LL:true,false"},
 }
